@@ -1,0 +1,106 @@
+//! Read-only text snapshot of a DFA, for the external verification harness.
+//!
+//! Only compiled with `--cfg lexgen_verif`. Nothing here changes the DFA or is used by the macro
+//! itself.
+
+use super::simplify::Trans;
+use super::{StateIdx, DFA};
+use crate::nfa::AcceptingState;
+
+use std::fmt::Write;
+
+/// A transition target that can be written to a snapshot.
+pub trait VerifTarget<A> {
+    fn verif_write(&self, out: &mut String, action_idx: &dyn Fn(&A) -> usize);
+}
+
+impl<A> VerifTarget<A> for StateIdx {
+    fn verif_write(&self, out: &mut String, _action_idx: &dyn Fn(&A) -> usize) {
+        write!(out, "s{}", self.0).unwrap();
+    }
+}
+
+impl<A> VerifTarget<A> for Trans<A> {
+    fn verif_write(&self, out: &mut String, action_idx: &dyn Fn(&A) -> usize) {
+        match self {
+            Trans::Trans(state) => write!(out, "s{}", state.0).unwrap(),
+            Trans::Accept(accepting) => {
+                out.push('a');
+                write_accepting(out, accepting, action_idx);
+            }
+        }
+    }
+}
+
+fn write_accepting<A>(
+    out: &mut String,
+    accepting: &[AcceptingState<A>],
+    action_idx: &dyn Fn(&A) -> usize,
+) {
+    out.push('[');
+    for (i, AcceptingState { value, right_ctx }) in accepting.iter().enumerate() {
+        if i != 0 {
+            out.push(',');
+        }
+        write!(out, "{}:", action_idx(value)).unwrap();
+        match right_ctx {
+            Some(right_ctx) => write!(out, "{}", right_ctx.as_usize()).unwrap(),
+            None => out.push('-'),
+        }
+    }
+    out.push(']');
+}
+
+impl<T: VerifTarget<A>, A> DFA<T, A> {
+    /// Writes one `state` line per state followed by its transitions. Hash map contents are
+    /// written in sorted order so that equal automata give equal text.
+    pub fn verif_dump(&self, out: &mut String, action_idx: &dyn Fn(&A) -> usize) {
+        writeln!(out, "dfa {}", self.states.len()).unwrap();
+        for (state_idx, state) in self.states.iter().enumerate() {
+            write!(
+                out,
+                "state {} initial={} backtrack={} accepting=",
+                state_idx, state.initial as u8, state.backtrack as u8
+            )
+            .unwrap();
+            write_accepting(out, &state.accepting, action_idx);
+            let mut predecessors: Vec<usize> = state.predecessors.iter().map(|p| p.0).collect();
+            predecessors.sort_unstable();
+            out.push_str(" preds=");
+            for (i, pred) in predecessors.iter().enumerate() {
+                if i != 0 {
+                    out.push(',');
+                }
+                write!(out, "{}", pred).unwrap();
+            }
+            out.push('\n');
+
+            let mut chars: Vec<(&char, &T)> = state.char_transitions.iter().collect();
+            chars.sort_by_key(|(char, _)| **char);
+            for (char, next) in chars {
+                write!(out, "char {} ", *char as u32).unwrap();
+                next.verif_write(out, action_idx);
+                out.push('\n');
+            }
+            for range in state.range_transitions.iter() {
+                write!(out, "range {} {} ", range.start, range.end).unwrap();
+                range.value.verif_write(out, action_idx);
+                out.push('\n');
+            }
+            if let Some(next) = &state.any_transition {
+                out.push_str("any ");
+                next.verif_write(out, action_idx);
+                out.push('\n');
+            }
+            if let Some(next) = &state.end_of_input_transition {
+                out.push_str("eoi ");
+                next.verif_write(out, action_idx);
+                out.push('\n');
+            }
+        }
+    }
+}
+
+pub fn state_idx(state: StateIdx) -> usize {
+    state.0
+}
